@@ -863,6 +863,42 @@ fn c09_requested(o: &mut Out, rng: &mut Rng, thorough: bool) {
             judge_scan_recover(o, &line, &got, &keys, &want, what);
         }
     }
+    // (2b) an extra field with TWO `TxPublicKey` sub-fields (legal; the library's `tx_pubkey()` is the FIRST one): outputs built from the
+    // first key are reported and recovered, outputs built from the second key are not the library's to find — and whatever IS reported must
+    // satisfy recover_key*G == the key on the wire (a scan that tries every such key but labels the output with the first one fails here)
+    for k in 0..(if thorough { 12 } else { 4 }) {
+        let (v, s) = (rand_scalar(rng), rand_scalar(rng));
+        let s_pub = s * G;
+        let (r1, r2) = (rand_scalar(rng), rand_scalar(rng));
+        let jj = 1 + rng.below(2) as u32; let sub = dest_at(&v, &s_pub, 1, jj);
+        // variant 0/1: both keys r*G (primary-address outputs); variant 2: the second key is r2*S' (its outputs go to that subaddress); variant 3: the first one is
+        let (k1, k2) = match k % 4 { 2 => (r1 * G, r2 * sub.1), 3 => (r1 * sub.1, r2 * G), _ => (r1 * G, r2 * G) };
+        let prim = dest_at(&v, &s_pub, 0, 0);
+        let (d1, d2) = match k % 4 { 2 => (&prim, &sub), 3 => (&sub, &prim), _ => (&prim, &prim) };
+        let nout = 3 + rng.below(2) as usize;
+        let mut keys: Vec<[u8; 32]> = vec![]; let mut want: Vec<(usize, (u32, u32))> = vec![];
+        for pos in 0..nout {
+            let first = (pos + k) % 2 == 0;
+            let (tk, d) = if first { (&k1, d1) } else { (&k2, d2) };
+            keys.push(derive_public_key(&derivation(&v, tk), pos as u64, &d.1).compress().to_bytes());
+            if first { want.push((pos, if d.2 { (1u32, jj) } else { (0u32, 0u32) })); }
+        }
+        let mut extra = vec![1u8]; extra.extend(k1.compress().to_bytes()); extra.push(1); extra.extend(k2.compress().to_bytes());
+        if k % 2 == 1 { extra.push(2); extra.push(3); extra.extend(rng.bytes(3)); }
+        let pre1 = serialize(&prefix_of(1, &keys, extra.clone()));
+        let pre2 = serialize(&prefix_of(2, &keys, extra));
+        let mut tx2 = pre2.clone(); tx2.extend(serialize(&null_base()));
+        let head = format!("{} {} 0 2 0 3", sh(&v), sh(&s));
+        for (what, line) in [
+            ("version-1 transaction with two TxPublicKey sub-fields", format!("c09_scan_tx {} {}", head, hex(&pre1))),
+            ("version-2 transaction of type Null with two TxPublicKey sub-fields", format!("c09_scan_tx {} {}", head, hex(&tx2))),
+            ("version-2 prefix with two TxPublicKey sub-fields scanned with no RingCT base", format!("c09_scan_pre {} {} none", head, hex(&pre2))),
+        ] {
+            o.stat("c09.two-tx-pubkeys");
+            let got = o.op(line.clone(), true);
+            judge_scan_recover(o, &line, &got, &keys, &want, what);
+        }
+    }
     // (3) a checker that covers exactly ONE index, and that index is not the primary address (ranges 0..1 x 1..2, i.e. only (0,1)):
     // payments to the PRIMARY address and to other subaddresses must not be reported, the payment to (0,1) must be, with its index —
     // through the scan (+ recover_key) and through `SubKeyChecker::check`; and the mirror image 0..1 x 0..1 (only the primary address)
